@@ -804,16 +804,20 @@ def record_trace(seed):
 # ------------------------------------------------------------------------------------------------
 def replay_chunk(args):
     """replay a chunk of emitted JSON lines; returns counters and findings grouped by key"""
-    base, lines, heavy_mod, seed = args
+    base, lines, heavy_mod, means_mod, seed = args
     warnings.filterwarnings('ignore')
     by_key = {}
     stats = {'n': 0, 'evals': 0, 'nontriv': 0, 'var': 0, 'means': 0, 'fixed': 0, 'psd': 0, 'nonpsd': 0,
-             'heavy': 0, 'shapes': {}}
+             'heavy': 0, 'perm_witness': 0, 'shapes': {}}
     for j, line in enumerate(lines):
         idx = base + j
         rec = json.loads(line)
+        if 'permuted' in rec:          # witness that TLC took PermuteModels (PermEquivariant not vacuous)
+            stats['perm_witness'] += 1
+            continue
         kind = rec['inp']['kind']
-        heavy = heavy_mod <= 1 or mix(idx + seed, 0, heavy_mod) == 0
+        hm = means_mod if kind == 'means' else heavy_mod
+        heavy = hm <= 1 or mix(idx + seed, 0, hm) == 0
         if kind == 'var':
             f, n = check_var(rec, idx + seed, heavy)
             i = rec['inp']
